@@ -862,6 +862,11 @@ class CallMixin:
         if ty is Dict and isinstance(v, VAny):
             return self.dict_view(v)
         from .ty import Assoc as _Assoc
+        if isinstance(ty, _Assoc) and isinstance(v, VRec) and v.ty.as_dict and not getattr(v.ty, "optkeys", False):
+            # a dict display with constant keys: its items in insertion order
+            r = VList(ty.elem, items=[VTuple([lift(k), self.adapt_arg(x, ty.valty)]) for k, x in v.fields.items()])
+            r.assoc = True
+            return r
         if isinstance(ty, _Assoc) and isinstance(v, (VAny, VDict)):
             # a dict handed to a callee that iterates over .items(): the insertion-ordered item list is an
             # uninterpreted view of the dict (nothing is assumed about which pairs it contains)
@@ -1665,6 +1670,9 @@ class CallMixin:
     def list_method(self, lst: VList, name, args, kwargs, lineno):
         if getattr(lst, "assoc", False) and name == "items":
             return lst
+        if getattr(lst, "assoc", False) and name in ("values", "keys") and lst.items is not None:
+            return VList(lst.elem.elems[1 if name == "values" else 0] if lst.elem is not None else None,
+                         items=[x.items[1 if name == "values" else 0] for x in lst.items])
         if getattr(lst, "assoc", False) and name in ("values", "keys") and lst.seq is not None:
             # d.values() / d.keys() of an association list: the projection of every pair (generated map function)
             elem = lst.elem
